@@ -11,11 +11,13 @@ Inductive case :=
 | CSection (id : nat) (lit : bytes) (ct : list (bytes * ctype)) (path : list nat) (sp : spec) (obs : option bytes)
 (* appended literal, the value of the ID header, BODY[] *)
 | CSplice (id : nat) (orig idval stored : bytes)
+(* a literal that entered through the connector / Drafts (possibly without any header field), the ID value, BODY[] *)
+| CInsert (id : nat) (orig idval stored : bytes)
 (* RFC822.SIZE and the announced literal length against BODY[] *)
 | CSize (id : nat) (lit : bytes) (size announced : N).
 
 Definition case_id (c : case) : nat :=
-  match c with CPartial i _ _ _ _ => i | CSection i _ _ _ _ _ => i | CSplice i _ _ _ => i | CSize i _ _ _ => i end.
+  match c with CPartial i _ _ _ _ => i | CSection i _ _ _ _ _ => i | CSplice i _ _ _ => i | CInsert i _ _ _ => i | CSize i _ _ _ => i end.
 
 Definition ct_lookup (ct : list (bytes * ctype)) (h : bytes) : ctype :=
   match find (fun p => bytes_eqb (fst p) h) ct with Some p => snd p | None => CtOther end.
@@ -36,6 +38,7 @@ Definition case_ok (c : case) : bool :=
   | CSplice _ orig idval stored =>
     opt_bytes_eqb (set_header_value orig id_key idval) (Some stored)
     && opt_bytes_eqb (erase_header_value stored id_key) (Some orig)
+  | CInsert _ orig idval stored => opt_bytes_eqb (set_header_value orig id_key idval) (Some stored)
   | CSize _ lit size announced => N.eqb (N.of_nat (length lit)) size && N.eqb size announced
   end.
 
